@@ -178,8 +178,29 @@ def precheck_rule(ctx, facts, cfg, f):
 
         def is_len(x):
             return x[0] == 'call' and x[1].endswith('::len') and x[2] and x[2][0][0] in ('ref', 'load') and x[2][0][1].get('local') == 2
-        if is_len(l_) and r_[0] == 'const' and e[1] in ('Gt', 'Ge'):
-            refused_from = r_[1] + (1 if e[1] == 'Gt' else 0)
+        def len_plus(x):
+            """(constant, has other terms) when x = name.len() + ..., else None"""
+            if is_len(x):
+                return 0, False
+            if x[0] == 'binop' and x[1] in ('Add', 'AddWithOverflow'):
+                for a_, b_ in ((x[2], x[3]), (x[3], x[2])):
+                    a_ = fold(a_)
+                    lp = len_plus(a_)
+                    if lp is not None:
+                        b_ = fold(b_)
+                        return (lp[0] + b_[1], lp[1]) if b_[0] == 'const' and isinstance(b_[1], int) else (lp[0], True)
+            if x[0] == 'field' and len(x) > 2 and isinstance(x[2], tuple):
+                return len_plus(x[2])
+            return None
+        lp_l = len_plus(l_)
+        if lp_l is not None and lp_l[1] and r_[0] == 'const' and e[1] in ('Gt', 'Ge'):
+            n += 1
+            ctx.instance(rid, 'text-length pre-check at %s adds a term that does not apply to every name' % t.get('at'), ok=False, site=t.get('at'))
+            ctx.violation(rid, FN, 'precheck-extra-term', 'the conversion refuses a name before looking at it when name.len() plus another quantity (the default zone\'s length?) exceeds %s: the zone is only '
+                          'appended to names that do not end in a dot, so acceptable absolute names are refused' % r_[1], site=t.get('at'), config=cfg)
+            continue
+        if lp_l is not None and not lp_l[1] and r_[0] == 'const' and e[1] in ('Gt', 'Ge'):
+            refused_from = r_[1] - lp_l[0] + (1 if e[1] == 'Gt' else 0)
         elif is_len(r_) and l_[0] == 'const' and e[1] in ('Lt', 'Le'):
             refused_from = l_[1] + (1 if e[1] == 'Lt' else 0)
         else:
